@@ -13,8 +13,9 @@ T = {
     "T-pickle": "pickle round trip / documented unpickling error classes",
     "T-crc": "crcmod 'modbus' equals CRC-16/MODBUS",
     "T-ihex": "IntelHex.fromfile+tobinstr returns the bytes the file encodes",
-    "T-fs": "ghost file system: atomic rename, ordered metadata, durability only by fsync",
-    "T-serial": "pyserial/asyncio call connection_made/lost once per connection; write completes or raises OSError",
+    "T-fs": "ghost file system: atomic rename/link/remove, ordered metadata, durability only by fsync; a failing operation raises OSError, FileNotFoundError or PermissionError",
+    "T-serial": "pyserial/asyncio call connection_made/lost once per connection; write completes or raises OSError or one of its subclasses",
+    "T-rely": "interference by other threads is what the contracts' relies state and no more: a report between two file operations of a save, a user stop during a retry wait, producers appending to the job queue, a connection lost/closed/replaced between two attribute reads, cancellation at an await, late done-callbacks; finer-grained interleavings (inside one bytecode-atomic operation, two saves at once) are not explored",
     "T-time": "time.time() is non-decreasing",
     "T-file": "a persistence file read at start-up is damaged or was written by save_sensors under the same version",
     "T-spec": "the spec functions in /verif/spec say what the property statements say",
@@ -23,17 +24,17 @@ T = {
 
 _GW = ["T-engine", "T-smt", "T-int", "T-str", "T-hex", "T-vol", "T-aw", "T-dict", "T-schema", "T-spec", "T-crc"]
 PER_PROP = {
-    "C01": _GW, "C04": _GW, "C05": _GW + ["T-time"], "C07": _GW, "C08": _GW, "C10": _GW, "C14": _GW + ["T-json", "T-pickle", "T-fs"],
+    "C01": _GW, "C04": _GW, "C05": _GW + ["T-time"], "C07": _GW, "C08": _GW, "C10": _GW, "C14": _GW + ["T-json", "T-pickle", "T-fs", "T-rely"],
     "C02": ["T-engine", "T-smt", "T-int", "T-str", "T-spec"],
     "C11": ["T-engine", "T-smt", "T-json", "T-pickle", "T-aw", "T-vol"],
     "C17": ["T-engine", "T-smt", "T-str", "T-dict", "T-schema"],
     "C12": ["T-engine", "T-smt", "T-fs", "T-json", "T-pickle"],
     "C13": ["T-engine", "T-smt", "T-fs", "T-json", "T-pickle", "T-file"],
-    "C15": ["T-engine", "T-smt", "T-fs", "T-dict", "T-serial"],
-    "C16": ["T-engine", "T-smt", "T-dict", "T-serial"],
+    "C15": ["T-engine", "T-smt", "T-fs", "T-dict", "T-serial", "T-rely"],
+    "C16": ["T-engine", "T-smt", "T-dict", "T-serial", "T-rely"],
     "C18": ["T-engine", "T-smt", "T-aw", "T-spec", "T-dict"],
     "C19": ["T-engine", "T-smt", "T-serial", "T-dict", "T-str"],
-    "C20": ["T-engine", "T-smt", "T-serial", "T-time", "T-dict"],
+    "C20": ["T-engine", "T-smt", "T-serial", "T-time", "T-dict", "T-rely"],
     "C09": ["T-engine", "T-smt", "T-int", "T-hex", "T-crc", "T-ihex", "T-spec"],
     "C03": ["T-engine", "T-smt", "T-int", "T-vol", "T-aw", "T-str", "T-hex", "T-spec"],
     "C06": _GW + ["T-json", "T-pickle"],
